@@ -190,9 +190,13 @@ def _topological_policy(
     )
 
 
-def _judgement_grouper(judgement: DSeparationJudgement) -> tuple[Variable, Variable]:
-    """Simplify d-separation to just left & right element (for grouping left/right pairs)."""
-    return judgement.left, judgement.right
+def _judgement_grouper(judgement: DSeparationJudgement) -> tuple[str, str]:
+    """Simplify d-separation to just left & right element (for grouping left/right pairs).
+
+    The nodes are compared by their text, like :meth:`DSeparationJudgement.create` does: two counterfactual
+    variables of the same name (``Y @ -X`` and ``Y @ +X``) are different nodes of a graph but do not order by ``<``.
+    """
+    return str(judgement.left), str(judgement.right)
 
 
 def _len_lex(judgement: DSeparationJudgement) -> tuple[int, str]:
